@@ -297,6 +297,18 @@ func (g *Gen) swarmExtras(p *Plan, persistent, topo bool) {
 			}
 		}
 	}
+	if persistent && g.chance(1, 5) {
+		// capability validation before every apply (another aspect of the topo entity nobody generated before)
+		p.Knobs.ValidateCaps = map[string]bool{}
+		for _, t := range p.Knobs.Targets {
+			if g.chance(1, 2) {
+				p.Knobs.ValidateCaps[t] = true
+			}
+		}
+		if len(p.Knobs.ValidateCaps) > 0 {
+			p.Profile += "+validate-caps"
+		}
+	}
 	if topo && g.chance(1, 5) {
 		p.Profile += "+topo-faults"
 		for i := 0; i <= g.pick(3); i++ {
